@@ -590,6 +590,18 @@ func (x *tr) stmts(list []ast.Stmt, fall string, ind string) string {
 			}
 			return "let (" + x.pat(a.Name) + ", " + x.pat(b.Name) + ") := " + x.expr(v.Rhs[0]) + "\n" + ind + next()
 		}
+		if len(v.Lhs) > 2 && len(v.Rhs) == 1 {
+			// n results of one call: the right-hand side is a (right-nested) tuple
+			pats := make([]string, len(v.Lhs))
+			for i, l := range v.Lhs {
+				id, ok := l.(*ast.Ident)
+				if !ok {
+					return x.errf("assignment %s", x.src(v))
+				}
+				pats[i] = x.pat(id.Name)
+			}
+			return "let (" + strings.Join(pats, ", ") + ") := " + x.expr(v.Rhs[0]) + "\n" + ind + next()
+		}
 		if len(v.Lhs) != len(v.Rhs) {
 			return x.errf("assignment %s", x.src(v))
 		}
